@@ -1420,3 +1420,58 @@ def well_composition_ok(ex, result, L, well):
     for k2, _ in result.items:
         conj.append(z3.Or(*[zbool(unwrap_bool(ops.equals(ex, k2, k))) for k, _ in L.fields["_composition"].items]))
     return mk_bool(z3.And(*conj))
+
+
+_EVOSEL = {}
+
+
+@spec
+def evo_sel_spec(ex, n_rows, n_columns, wells):
+    """the selection string evo_get_selection yields for the 0/1 array of exactly these wells (meaning fixed by the C12 contract)"""
+    ws = [ops.to_abstract(w) for w in colmajor(ex, wells).concrete_items()]
+    n = len(ws)
+    if n not in _EVOSEL:
+        _EVOSEL[n] = z3.Function(f"evo_selection_{n}", *([z3.IntSort()] * (2 + 2 * n)), z3.StringSort())
+    args = [term(n_rows, "int"), term(n_columns, "int")]
+    for w in ws:
+        args += [term(w.r, "int"), term(w.c, "int")]
+    s = _EVOSEL[n](*args)
+    ex.p.assume(z3.And(z3.Not(z3.Contains(s, z3.StringVal(","))), z3.Not(z3.Contains(s, z3.StringVal(";")))))
+    return Sym(s, "str")
+
+
+@spec
+def define_selection(ex, n_rows, n_columns, wells):
+    """obligation: evo_get_selection was called with the labware dimensions and the array of exactly these wells;
+    then (by definition of evo_sel_spec and determinism of evo_get_selection) its result is evo_sel_spec(...)"""
+    ok = selection_matches(ex, n_rows, n_columns, wells)
+    ex.p.check("selection-arguments (inside define_selection)", zbool(unwrap_bool(ok)), {"kind": "ensures", "text": "selection_matches(n_rows, n_columns, wells)"})
+    ex.p.assume(zbool(unwrap_bool(ok)))
+    ex.p.assume(term(selection_string(ex)) == term(evo_sel_spec(ex, n_rows, n_columns, wells)))
+    return True
+
+
+@spec
+def evo_wash_cmd(ex, tips, waste_location, cleaner_location, arm, waste_vol, waste_delay, cleaner_vol, cleaner_delay, airgap, airgap_speed,
+                 retract_speed, fastwash, low_volume):
+    """the EVOware Wash command with its 16 parameters in the documented order (sites zero-based, volumes to one decimal)"""
+    from .values import RecV
+
+    wl, cl = waste_location.concrete_items(), cleaner_location.concrete_items()
+    fm = lambda v: lib.format_value(ex, v, "")  # noqa: E731
+    q = lambda v: lib.join_str_parts(ex, ['"', fm(lib.np_round(ex, v, 1)), '"'])  # noqa: E731
+    first = lib.join_str_parts(ex, ["B;Wash(", fm(tipmask(ex, tips))])
+    fields = [fm(wl[0]), fm(ops.binop(ex, "-", wl[1], 1)), fm(cl[0]), fm(ops.binop(ex, "-", cl[1], 1)), q(waste_vol), fm(waste_delay), q(cleaner_vol),
+              fm(cleaner_delay), fm(airgap), fm(airgap_speed), fm(retract_speed), fm(fastwash), fm(low_volume), "1000",
+              lib.join_str_parts(ex, [fm(arm), ");"])]
+    return RecV(first, fields, ",")
+
+
+@spec
+def tips_distinct(ex, tips):
+    items = tips.concrete_items()
+    r = True
+    for i, p in enumerate(items):
+        for q in items[:i]:
+            r = ops.and_(ex, r, ops.compare(ex, "!=", tip_bit(ex, p), tip_bit(ex, q)))
+    return r
